@@ -370,6 +370,8 @@ func c08Families(tier string) []explore.Family {
 		{`{"b":1}`, func() any { return map[string]any{"b": 1} }, ref.NewMap("b", ref.Int(1))},
 		{`{"b":1,"size":9}`, func() any { return map[string]any{"b": 1, "size": 9} }, ref.NewMap("b", ref.Int(1), "size", ref.Int(9))},
 		{`{"first":2}`, func() any { return map[string]any{"first": 2} }, ref.NewMap("first", ref.Int(2))},
+		{`{"size":nil,"k":"v"}`, func() any { return map[string]any{"size": nil, "k": "v"} }, ref.NewMap("size", nil, "k", "v")},
+		{`{"first":nil,"b":false}`, func() any { return map[string]any{"first": nil, "b": false} }, ref.NewMap("first", nil, "b", false)},
 		{`map[string]int{"b":1}`, func() any { return map[string]int{"b": 1} }, ref.NewMap("b", ref.Int(1))},
 		{`Drop{{"b":1}}`, func() any { return univ.Drop{V: map[string]any{"b": 1}} }, ref.NewMap("b", ref.Int(1))},
 		{`*map{"b":1}`, func() any { m := map[string]any{"b": 1}; return &m }, ref.NewMap("b", ref.Int(1))},
@@ -764,15 +766,24 @@ func c08Families(tier string) []explore.Family {
 			r.Class("arity/unknown-filter-in-tree:" + f)
 			return
 		}
-		argv := make([]string, n+1)
-		for j := range argv {
-			argv[j] = "1"
-		}
-		for _, recvSrc := range []string{`"2001-02-03"`, "a", "3"} {
-			src := "{{ " + recvSrc + " | " + f + ": " + strings.Join(argv, ", ") + " }}"
-			o := Render(c08.eng, src, c08Bind())
-			if o.Panic != nil || o.Err == nil {
-				r.Violation("too-many-arguments-accepted:"+f, map[string]any{"template": src, "filter_takes": n}, "an error (more arguments than the filter takes)", o.String())
+		// the surplus arguments: a number, nil (an undefined name, the literal), an empty string, a list - one, two or three of them
+		for _, extra := range []string{"1", "nope", "nil", `""`, "a", "false"} {
+			for surplus := 1; surplus <= 3; surplus++ {
+				argv := make([]string, n+surplus)
+				for j := range argv {
+					argv[j] = "1"
+					if j >= n {
+						argv[j] = extra
+					}
+				}
+				for _, recvSrc := range []string{`"2001-02-03"`, "a", "3"} {
+					src := "{{ " + recvSrc + " | " + f + ": " + strings.Join(argv, ", ") + " }}"
+					r.Eval()
+					o := Render(c08.eng, src, c08Bind())
+					if o.Panic != nil || o.Err == nil {
+						r.Violation("too-many-arguments-accepted:"+f, map[string]any{"template": src, "filter_takes": n}, "an error (more arguments than the filter takes)", o.String())
+					}
+				}
 			}
 		}
 		r.Class("arity/" + strconv.Itoa(n))
@@ -848,7 +859,7 @@ func c08Families(tier string) []explore.Family {
 	}
 	// literals denote themselves: every string of <=3|4 symbols over {a, b, space, tab, newline, |, :} as a
 	// double- and single-quoted literal, as a filter argument and as a bracket key, all in one process
-	litAlpha := []string{"a", " ", "\t", "\n", "b", "|", ":"}
+	litAlpha := []string{"a", " ", "\t", "\n", "b", "|", ":", "\\", "n", "t"} // a backslash is an ordinary character of a literal: "\n" is two characters
 	litN := 3
 	if thorough {
 		litN = 4
